@@ -19,17 +19,25 @@ pub struct Quote {
     pub vars: Vec<String>, // how the quote depends on variables (for a float quote: the single fx_<l><r>)
     pub g: Vec<f64>,
     pub is_dual: bool,
+    pub h: Vec<Vec<f64>>, // non-empty: a SECOND-order quote with this (symmetric) Hessian in its own variables
     pub settle: i64, // 0 = none, otherwise a day number
 }
 impl Quote {
     pub fn float(l: &str, r: &str, v: f64, settle: i64) -> Self {
-        Quote { l: l.into(), r: r.into(), v, vars: vec![format!("fx_{}{}", l, r)], g: vec![1.0], is_dual: false, settle }
+        Quote { l: l.into(), r: r.into(), v, vars: vec![format!("fx_{}{}", l, r)], g: vec![1.0], is_dual: false, h: vec![], settle }
     }
     pub fn dual(l: &str, r: &str, v: f64, vars: Vec<String>, g: Vec<f64>, settle: i64) -> Self {
-        Quote { l: l.into(), r: r.into(), v, vars, g, is_dual: true, settle }
+        Quote { l: l.into(), r: r.into(), v, vars, g, is_dual: true, h: vec![], settle }
+    }
+    pub fn dual2(l: &str, r: &str, v: f64, vars: Vec<String>, g: Vec<f64>, h: Vec<Vec<f64>>, settle: i64) -> Self {
+        Quote { l: l.into(), r: r.into(), v, vars, g, is_dual: true, h, settle }
     }
     pub fn to_rate(&self) -> Result<FXRate, String> {
-        let num = if self.is_dual {
+        let num = if !self.h.is_empty() {
+            // the stored second-order array is half the Hessian
+            let half: Vec<f64> = self.h.iter().flatten().map(|x| 0.5 * x).collect();
+            Number::Dual2(rateslib::dual::Dual2::try_new(self.v, self.vars.clone(), self.g.clone(), half).map_err(|e| e.to_string())?)
+        } else if self.is_dual {
             Number::Dual(Dual::try_new(self.v, self.vars.clone(), self.g.clone()).map_err(|e| e.to_string())?)
         } else {
             Number::F64(self.v)
@@ -39,7 +47,7 @@ impl Quote {
     }
     pub fn json(&self) -> Value {
         json!({"l": self.l, "r": self.r, "v": fj(self.v), "vars": self.vars, "g": fvec(&self.g), "settle": self.settle,
-               "kind": if self.is_dual {"D1"} else {"F"}})
+               "h": fmat(&self.h), "kind": if !self.h.is_empty() {"D2"} else if self.is_dual {"D1"} else {"F"}})
     }
 }
 
@@ -302,7 +310,15 @@ pub fn record(seed: u64, n: usize, out: &str) {
                     // a quote that is already a dual number keeps its own variables
                     let vars = if r.coin() { vec![format!("q{}", a), "shared".to_string()] } else { vec![format!("own_{}{}", names[a], names[b])] };
                     let g: Vec<f64> = vars.iter().map(|_| r.uniform(0.5, 2.0) * if r.coin() { 1.0 } else { -1.0 }).collect();
-                    Quote::dual(names[a], names[b], rand_rate(&mut r), vars, g, settle)
+                    if r.chance(0.4) {
+                        // a quote that is already a SECOND-order number with its own curvature
+                        let k = vars.len();
+                        let mut h = vec![vec![0.0; k]; k];
+                        for i in 0..k { for j in i..k { let x = r.uniform(-1.0, 1.0); h[i][j] = x; h[j][i] = x; } }
+                        Quote::dual2(names[a], names[b], rand_rate(&mut r), vars, g, h, settle)
+                    } else {
+                        Quote::dual(names[a], names[b], rand_rate(&mut r), vars, g, settle)
+                    }
                 } else {
                     Quote::float(names[a], names[b], rand_rate(&mut r), settle)
                 }
